@@ -6,6 +6,7 @@ molecule that must be refused) with faults on the simulated file layer (open err
 call: totality and element masses, equality with the baseline (first call in a pristine forked process), and
 after a faulted call (which may raise OSError) the next call with good files equals the baseline again.
 """
+import copy
 import hashlib
 import json
 import os
@@ -231,18 +232,43 @@ def _execute_one(spec):
                 stats["typing_calls"] += 1
                 feats = ["call=" + kind]
                 if kind == "partial":
-                    tok = g.SmilesToken("[<]CC[>]", 0, 0)
-                    part = tok.generate()
-                    stats["refusals_checked"] += 1
+                    # partial molecules: a lone token, a token whose open descriptor has weight 0, and every intermediate of the
+                    # run's own molecule generated element by element (a prefix written without descriptor carries an implicit
+                    # descriptor of weight 0).  Partial = the list of open descriptors is not empty.
+                    parts = []
+                    variant = c["perm_seed"] % 4
                     try:
-                        part.get_forcefield_types(None, None)
-                        viol("partial_molecule_typed", "a partially generated molecule (open descriptors) was typed instead of refused")
-                    except RuntimeError:
-                        pass
+                        if variant == 0:
+                            parts.append(("[<]CC[>]", g.SmilesToken("[<]CC[>]", 0, 0).generate()))
+                        elif variant == 1:
+                            t = ["CC[>|0|]", "[<|0|]CC[>|0.0|]", "OC[$|0|]"][c["perm_seed"] // 4 % 3]
+                            parts.append((t, g.SmilesToken(t, 0, 0).generate()))
+                        else:
+                            m = spec["mols"][c["mol"]]
+                            my = None
+                            for ei, el in enumerate(g.Molecule(m["text"]).elements[:-1]):
+                                my = el.generate(my, np.random.default_rng(m["seed"]))
+                                if len(my.bond_descriptors) > 0:
+                                    parts.append((f"{m['text']} after element {ei}", copy.deepcopy(my)))
                     except SimAbort:
                         raise
                     except Exception as exc:
-                        viol("partial_molecule_typed", f"typing a partially generated molecule raised {exc!r} instead of refusing")
+                        return {"harness_error": f"partial molecule could not be built: {exc!r}", "violations": []}
+                    for what, part in parts:
+                        stats["refusals_checked"] += 1
+                        try:
+                            if c["perm_seed"] % 2:
+                                part.get_forcefield_types(None, None)
+                            else:
+                                part.forcefield_types
+                            viol("partial_molecule_typed", f"a partially generated molecule ({what}: {len(part.bond_descriptors)} open descriptors) "
+                                 f"was typed instead of refused")
+                        except RuntimeError:
+                            pass
+                        except SimAbort:
+                            raise
+                        except Exception as exc:
+                            viol("partial_molecule_typed", f"typing a partially generated molecule ({what}) raised {exc!r} instead of refusing")
                     continue
                 if kind == "renumbered":
                     out = _renumbered(g, mg, c["perm_seed"], viol)
